@@ -2,7 +2,7 @@
    Machines: Ops/Groups.v (group_by_until / group_by as a machine of the window-aware runner
    Ops/MultiWin.v; partition = publish + ref_count + two filters as a model of its own). *)
 From RxVerif Require Import Base.Prelude Ops.Machine Ops.MultiWin Ops.MultiWinFacts Ops.Groups Ops.GroupFacts
-  Ops.WindowCountFacts Ops.GroupRunFacts.
+  Ops.WindowCountFacts Ops.GroupRunFacts Ops.GroupsSubject Ops.GroupsIndexed Ops.GroupsIndexedFacts.
 
 (* ---- group_by / group_by_until: EVERY state (= every input history), every callback -------- *)
 (* the key has a live writer: the element goes to that group and nowhere else; no group is handed *)
@@ -165,6 +165,97 @@ Print Assumptions C19_partition_connected_iff_subscribed.
 Print Assumptions C19_partition_last_leaves.
 Print Assumptions C19_partition_other_stays.
 
+(* ---- subject_mapper (custom subject factory of group_by / group_by_until): EVERY state ---------- *)
+(* the key has a live writer: the factory is not consulted; the step is the one of the default factory *)
+Theorem C19_subject_factory_not_consulted : forall A W B (key : A -> res Z) (elem : A -> res W) (dur : nat -> res bool)
+    (subj : nat -> res unit) s now (x : A) k g,
+  key x = Ok k -> gb_lookup k (gb_writers s) = Some g ->
+  x_step (x_group_by_until_sm (B:=B) key elem dur subj) s now (ISrc 0%nat (Next x))
+  = x_step (x_group_by_until (B:=B) key elem dur) s now (ISrc 0%nat (Next x)).
+Proof. exact @group_sm_existing. Qed.
+(* the key has no live writer and the factory raises: every open group and the outer get the error; no
+   group is handed, the element goes nowhere, the state is unchanged *)
+Theorem C19_subject_factory_raises : forall A W B (key : A -> res Z) (elem : A -> res W) (dur : nat -> res bool)
+    (subj : nat -> res unit) s now (x : A) k e,
+  key x = Ok k -> gb_lookup k (gb_writers s) = None -> subj (gb_calls s) = Raise e ->
+  x_step (x_group_by_until_sm (B:=B) key elem dur subj) s now (ISrc 0%nat (Next x))
+  = (s, gb_all (gb_writers s) (Err e), Fail e).
+Proof. exact @group_sm_raises. Qed.
+Theorem C19_subject_factory_raises_no_group : forall A W B (key : A -> res Z) (elem : A -> res W) (dur : nat -> res bool)
+    (subj : nat -> res unit) s now (x : A) k e,
+  key x = Ok k -> gb_lookup k (gb_writers s) = None -> subj (gb_calls s) = Raise e ->
+  ghands (snd (fst (x_step (x_group_by_until_sm (B:=B) key elem dur subj) s now (ISrc 0%nat (Next x))))) = []
+  /\ gwin_nexts (snd (fst (x_step (x_group_by_until_sm (B:=B) key elem dur subj) s now (ISrc 0%nat (Next x))))) = [].
+Proof. exact @group_sm_raises_no_hand. Qed.
+(* a factory that never raises: the machine is the machine of the default factory, at every step and
+   hence on every run -- all theorems above hold with a custom factory *)
+Theorem C19_subject_factory_total_step : forall A W B (key : A -> res Z) (elem : A -> res W) (dur : nat -> res bool)
+    (subj : nat -> res unit), (forall j, exists u, subj j = Ok u) ->
+  forall s now i, x_step (x_group_by_until_sm (B:=B) key elem dur subj) s now i
+                  = x_step (x_group_by_until (B:=B) key elem dur) s now i.
+Proof. exact @group_sm_total_step. Qed.
+Theorem C19_subject_factory_total_run : forall A W B (key : A -> res Z) (elem : A -> res W) (dur : nat -> res bool)
+    (subj : nat -> res unit) (imm : nat -> bool), (forall j, exists u, subj j = Ok u) ->
+  forall ins, run imm (x_group_by_until_sm (B:=B) key elem dur subj) ins
+              = run imm (x_group_by_until (B:=B) key elem dur) ins.
+Proof. exact @group_sm_total_run. Qed.
+Theorem C19_group_by_subject_factory_closed_form : forall A W B (kf : A -> Z) (ef : A -> W) (subj : nat -> res unit),
+  (forall j, exists u, subj j = Ok u) -> forall (xs : list A) (tm : term) (j : nat),
+  wevents j (fst (run all_imm (x_group_by_until_sm (B:=B) (fun x => Ok (kf x)) (fun x => Ok (ef x))
+                                  (fun _ => Ok false) subj) (src_events xs tm)))
+  = match nth_error (distinct_keys kf xs) j with
+    | Some k => map Next (map ef (filter (fun y => kf y =? k) xs)) ++ term_ev tm
+    | None => []
+    end.
+Proof. exact @group_by_sm_closed_form. Qed.
+Theorem C19_subject_factory_invariant : forall A W B (key : A -> res Z) (elem : A -> res W) (dur : nat -> res bool)
+    (subj : nat -> res unit) s now i,
+  gb_inv s -> gb_inv (fst (fst (x_step (x_group_by_until_sm (B:=B) key elem dur subj) s now i))).
+Proof. exact @gbs_inv_step. Qed.
+Theorem C19_subject_factory_keeps_source : forall A W B (key : A -> res Z) (elem : A -> res W) (dur : nat -> res bool)
+    (subj : nat -> res unit), never_unsubs (x_group_by_until_sm (A:=A) (W:=W) (B:=B) key elem dur subj) 0%nat.
+Proof. exact @group_sm_never_unsubs_source. Qed.
+Print Assumptions C19_subject_factory_not_consulted.
+Print Assumptions C19_subject_factory_raises.
+Print Assumptions C19_subject_factory_raises_no_group.
+Print Assumptions C19_subject_factory_total_step.
+Print Assumptions C19_subject_factory_total_run.
+Print Assumptions C19_group_by_subject_factory_closed_form.
+Print Assumptions C19_subject_factory_invariant.
+Print Assumptions C19_subject_factory_keeps_source.
+
+(* ---- partition_indexed: EVERY state ------------------------------------------------------------ *)
+(* a non-raising indexed predicate: the element reaches exactly the subscribers whose verdict -- the
+   predicate at THAT subscriber's own index -- selects their output; every index advances by one *)
+Theorem C19_partition_indexed_routing : forall A (pred : A -> nat -> res bool) (x : A) (pb : nat -> bool) s,
+  pti_conn s = true -> pti_stopped s = None ->
+  (forall g c, In (g, c) (pti_subs s) -> pred x c = Ok (pb c)) ->
+  let '(s', o) := pti_step pred s (ISrc 0%nat (Next x)) in
+  (forall g, In (OWin g (Next x)) o <-> exists c, In (g, c) (pti_subs s) /\ goes_to_i (pb c) g = true)
+  /\ s' = PtiSt (pti_bumped (pti_subs s)) true None.
+Proof. exact @partition_indexed_routing. Qed.
+(* subscribers that share an index (all of them subscribed before the first element, say): exactly one of
+   the two outputs, never both; they still share an index afterwards *)
+Theorem C19_partition_indexed_exactly_one : forall A (pred : A -> nat -> res bool) (x : A) b c s,
+  pti_conn s = true -> pti_stopped s = None ->
+  (forall g c', In (g, c') (pti_subs s) -> c' = c) -> pred x c = Ok b ->
+  let '(s', o) := pti_step pred s (ISrc 0%nat (Next x)) in
+  (forall g, In (OWin g (Next x)) o <-> In g (pti_outs (pti_subs s)) /\ goes_to_i b g = true)
+  /\ ~ (In (OWin 0%nat (Next x)) o /\ In (OWin 1%nat (Next x)) o)
+  /\ pti_subs s' = map (fun gc => (fst gc, S c)) (pti_subs s)
+  /\ (forall g c', In (g, c') (pti_subs s') -> c' = S c).
+Proof. exact @partition_indexed_exactly_one. Qed.
+Theorem C19_partition_indexed_fresh_index : forall A (pred : A -> nat -> res bool) s g, pti_stopped s = None ->
+  pti_subs (fst (pti_step pred s (ISubWin g))) = pti_subs s ++ [(g, 0%nat)].
+Proof. exact @partition_indexed_fresh_index. Qed.
+Theorem C19_partition_indexed_connected_iff_subscribed : forall A (pred : A -> nat -> res bool) (ins : list (Z * inp A)),
+  pti_inv (pti_after pred (PtiSt [] false None) ins).
+Proof. exact @pti_inv_always. Qed.
+Print Assumptions C19_partition_indexed_routing.
+Print Assumptions C19_partition_indexed_exactly_one.
+Print Assumptions C19_partition_indexed_fresh_index.
+Print Assumptions C19_partition_indexed_connected_iff_subscribed.
+
 (* ---- witnesses ------------------------------------------------------------------------------ *)
 Example C19_witness_group_by :
   (* key = parity; 0 is a falsy key; every group subscribed when handed *)
@@ -187,4 +278,22 @@ Example C19_witness_partition :
       [(0, ISubWin 0%nat); (0, ISubWin 1%nat); (1, ISrc 0%nat (Next 3)); (2, ISrc 0%nat (Next 8));
        (3, IUnsubWin 0%nat); (4, ISrc 0%nat (Next 4)); (5, IUnsubWin 1%nat); (6, ISrc 0%nat (Next 9))])
   = [OSub 0%nat; OWin 0%nat (Next 3); OWin 1%nat (Next 8); OUnsub 0%nat].
+Proof. vm_compute. reflexivity. Qed.
+Example C19_witness_subject_factory_raises :
+  (* the factory raises at its second call: key 1 gets a group, key 0 does not -- everything errors *)
+  let tr := fst (run all_imm (x_group_by_until_sm (B:=unit) (fun x => Ok (x mod 2)) (fun x => Ok x) (fun _ => Ok false)
+                                (fun j => if Nat.eqb j 1 then Raise 85 else Ok tt))
+                     [(0, ISrc 0%nat (Next 1)); (0, ISrc 0%nat (Next 3)); (0, ISrc 0%nat (Next 2));
+                      (0, ISrc 0%nat (Next 5))]) in
+  hands tr = [(0%nat, 1)] /\ wevents 0 tr = [Next 1; Next 3; Err 85] /\ emitted tr = [Err 85].
+Proof. vm_compute. auto. Qed.
+Example C19_witness_partition_indexed :
+  (* predicate_indexed = (i is even).  Both outputs subscribed from the start share the index: 10 goes to
+     output 0 only.  Output 1 then leaves and re-subscribes: its index restarts at 0 while output 0 is at 1,
+     so 20 reaches neither output and 30 reaches both (each subscriber is served by its own index) *)
+  map snd (pti_run (fun (_ : Z) i => Ok (Nat.even i))
+      [(0, ISubWin 0%nat); (0, ISubWin 1%nat); (1, ISrc 0%nat (Next 10)); (2, IUnsubWin 1%nat); (3, ISubWin 1%nat);
+       (4, ISrc 0%nat (Next 20)); (5, ISrc 0%nat (Next 30)); (6, ISrc 0%nat Done)])
+  = [OSub 0%nat; OWin 0%nat (Next 10); OWin 0%nat (Next 30); OWin 1%nat (Next 30);
+     OWin 0%nat Done; OWin 1%nat Done; OUnsub 0%nat].
 Proof. vm_compute. reflexivity. Qed.
